@@ -46,7 +46,7 @@ def main():
         })
     man = {
         "version": 1,
-        "setup_cmd": "/venv/bin/python -c 'import hypothesis, cloudpickle, psutil' || /venv/bin/pip install --no-index --find-links /opt/veriftools/wheels hypothesis",
+        "setup_cmd": "/venv/bin/python -c 'import sys; sys.path.insert(0, \"/repo\"); import cloudpickle, psutil, loky; print(\"simloky: nothing to build; loky is imported from /repo at run time\")'",
         "hooks": {"guard": "LOKY_VERIF", "enable": "no hooks are needed: every seam is a module global substituted from the harness (DESIGN.md section 12)",
                   "baseline_off_cmd": "cd /repo && /venv/bin/python -m pytest -ra -q -p no:cacheprovider --timeout=900 --continue-on-collection-errors",
                   "source_commits": [], "add_only": True},
